@@ -20,16 +20,41 @@ seeded    align_local_gapped: contains the seed, direction respected, recomputed
           optimum, == best through the seed when the threshold cannot bind.
 ungapped  align_local_ungapped: diagonal range through the seed, direction
           respected, recomputed == reported == score_only == exact X-drop value.
-table_limit  align_local_gapped(max_table_size): MemoryError (cleanly) when the
-          table cannot fit, identical result when it generously fits.
+table_limit  align_local_gapped(max_table_size) on 600..1200 identical periodic
+          symbols: MemoryError (cleanly) when the limit is far below the product of
+          the aligned region lengths, identical result when it fits with a wide
+          margin, either in between; the result itself is valid, contains the
+          seed, is honestly scored and has the score of the all-match diagonal.
+
+Alternatives that are accepted (each shows up as a label)
+---------------------------------------------------------
+* affine penalties: neither docstring says whether a gap may directly abut a gap
+  of the other sequence.  Upper bounds use the optimum WITHOUT that restriction
+  (>= the restricted one); "reaches the optimum" clauses accept any score in
+  [restricted optimum, unrestricted optimum] (the score is also the recomputed
+  score of the returned trace); labels ``adjacency_matters``, ``reached_restricted``,
+  ``reached_unrestricted``, ``reached_between``.
+* ungapped stop rule: the summary of the docstring says "more than threshold
+  below", the parameter text "this value below": both exact X-drop values are
+  accepted where they differ (``stop_rule_more_than`` / ``stop_rule_at_least``).
+* gapped extension, threshold > 10^6: a refusal with ValueError/OverflowError is
+  accepted (``large_threshold_refused``); a returned result is judged as usual.
+* a band that holds no pair (i, j) and is nevertheless accepted: an empty result
+  list is accepted; every alignment that IS returned is judged as usual.
+
+Stronger than the statement, kept on purpose: non-empty results are pairwise
+distinct (C08 states it for align_optimal only); the banded score equals the exact
+band-restricted optimum (align_banded docstring: "the maximum score possible
+within the defined band").
 """
 
 import numpy as np
 from hypothesis import strategies as st
 
+from models import align_heur_ref as H
 from models import align_ref as R
 from props.c08_align_optimal import (
-    build,
+    full_matrix,
     gap_of,
     model_inputs,
     st_codes,
@@ -42,21 +67,77 @@ from vlib import Outcome, Sub, findings
 PROPERTY = "C09"
 RULE = (
     "sequence pairs / matrices / penalties as in C08 (lengths up to 25), bands (d1, d2) in any order from "
-    "-(len1+3)..len2+3, seeds anywhere, thresholds 0..10^6, all directions, max_number 1..50; non-trivial = "
-    "the band cuts the optimal path, or the seed is off the optimal alignment, or the threshold binds"
+    "-(len1+3)..len2+3, seeds anywhere, thresholds 0..10^6 plus 'never stop' values up to the int32 maximum, "
+    "all directions, max_number 1..50; align_local_gapped only with strictly negative penalties (it refuses 0); "
+    "narrowed by construction while the findings are open: semi-global banded cases in which a substitution "
+    "score is <= a gap penalty and an optimal band path starts with / ends in a gap (C09-F1/F2: gaps next to the "
+    "band border at the sequence ends are then only exercised with local=True), affine sentinel overflow "
+    "(C09-F3), gapped thresholds T with T + 1 + min(len1, len2) * max(0, highest score) > 2^31 - 1 (C09-F4); "
+    "non-trivial = the band cuts the optimal path, or the seed is off the optimal alignment, or the threshold binds"
 )
 
 F1 = "C09-F1"
 F2 = "C09-F2"
 F3 = "C09-F3"
+F4 = "C09-F4"
+INT32_MAX = 2**31 - 1
 
+
+def f4_excluded():
+    """C09-F4 is narrowed out while it is a candidate (no entry in known_findings yet) or open;
+    once an entry exists with another status (fixed) the class is generated again."""
+    listed = any(e["id"] == F4 for e in findings.entries(PROPERTY))
+    return findings.is_open(F4) or not listed
+
+
+def f4_tag():
+    return F4 if findings.is_open(F4) else F4 + "-candidate"
 
 
 # thresholds a caller passes to say "never stop": the largest values the int32 parameter takes
 NEVER_STOP = [2**31 - 1, 2**31 - 2, 2**30]
-# the gapped X-drop tables store 'threshold + 1 + score' in int32 (a threshold that leaves no room is
-# refused with OverflowError - a refusal, not a wrong result): the largest threshold with room for every score
-NEVER_STOP_GAPPED = [2**30, 2**30 - 1]
+# The gapped X-drop tables hold 'threshold + 1 + score' in int32.  threshold = 2^31 - 1 is refused with
+# OverflowError (a refusal, accepted); every other threshold T with T + 1 + (a reachable score) > 2^31 - 1
+# is accepted and silently gives a wrong (too small) result: open finding C09-F4, narrowed by construction.
+# 10^9 and 2^30 - 1 are 'never stop' values below any plausible guard (int32 max // 2); 2^30 and above may
+# legitimately be refused (see run_seeded).
+NEVER_STOP_GAPPED = [2**30 - 1, 10**9, 2**30, 2**31 - 1]
+# the class of C09-F4: the last values below the int32 maximum
+NEAR_INT32_MAX = [2**31 - 2, 2**31 - 3, 2**31 - 10, 2**31 - 50, 2**31 - 1000]
+
+BUILD_STATE = {"released_id": None, "reused": False}  # diagnostic only (label), never part of a verdict
+
+
+def build(case):
+    """Sequences and matrix of a case (own copy of the C08 helper: C09 does not depend on its signature)."""
+    import biotite.sequence as seq
+    import biotite.sequence.align as align
+
+    alph1 = seq.Alphabet(list(range(case["size1"])))
+    alph2 = seq.Alphabet(list(range(case["size2"])))
+    malph1 = seq.Alphabet(list(range(case["size1"] + case["extra1"])))
+    malph2 = seq.Alphabet(list(range(case["size2"] + case["extra2"])))
+    s1 = seq.GeneralSequence(alph1)
+    s1.code = np.array(case["s1"], dtype=np.int64)
+    s2 = seq.GeneralSequence(alph2)
+    s2.code = np.array(case["s2"], dtype=np.int64)
+    # (whether the constructor copies the caller's array is C08's business: nothing is written to it here)
+    scores = np.ascontiguousarray(full_matrix(case), dtype=np.int32)
+    # History inside the case: a short-lived matrix object with OTHER scores is used (score_matrix(), transpose())
+    # and released immediately before the matrix of the case is created, which then usually gets the same
+    # address (CPython hands the freed block to the next object of that size).  The result of an alignment may
+    # not depend on objects that no longer exist, so correct code cannot fail because of this; anything that
+    # remembers matrices by id() does - reproducibly, within this one case.
+    other = np.ascontiguousarray(scores[::-1, ::-1] + 3, dtype=np.int32)
+    decoy = align.SubstitutionMatrix(malph1, malph2, other)
+    decoy.score_matrix()
+    decoy.transpose()
+    BUILD_STATE["released_id"] = id(decoy)
+    del decoy
+    matrix = align.SubstitutionMatrix(malph1, malph2, scores)
+    BUILD_STATE["reused"] = id(matrix) == BUILD_STATE["released_id"]
+    return s1, s2, matrix
+
 
 def iscore(o, value, where=""):
     """The reported score as int; a non-integer score (e.g. None) is a violation, not a harness error."""
@@ -257,15 +338,45 @@ def narrow_banded(case):
     return case
 
 
+def f4_class(case):
+    """C09-F4: align_local_gapped accepts the threshold T (T + 1 fits into int32) although
+    'T + 1 + score' does not fit for a score the extension can reach.  Decided from the case alone:
+    T + 1 + min(len1, len2) * max(0, highest matrix entry) > 2^31 - 1."""
+    T = case["threshold"]
+    if T >= INT32_MAX:
+        return False  # T + 1 itself does not fit: refused with OverflowError (accepted outcome)
+    c1, c2, mat = model_inputs(case)
+    return T > H.largest_threshold_with_room(c1, c2, mat)
+
+
+def narrow_seeded(case):
+    """C09-F4 is narrowed out by construction: the threshold becomes the largest one with room
+    for every reachable score (still a 'never stop' threshold)."""
+    case["narrowed"] = []
+    if f4_class(case) and f4_excluded():
+        c1, c2, mat = model_inputs(case)
+        case["threshold"] = H.largest_threshold_with_room(c1, c2, mat)
+        case["narrowed"] = [f4_tag()]
+    return case
+
+
 def st_banded(tier):
     maxlen = 12 if tier == "quick" else 25
 
     @st.composite
     def gen(draw):
         small = draw(st.integers(0, 2)) == 2
-        case = base_case(draw, 5 if small else maxlen)
+        # 1 in 12: every pair costs (all-negative matrix, but cheaper than any gap), full band, semi-global:
+        # the optimum pairs nothing - the premise "some optimal alignment pairs at least one position" fails
+        nopair = draw(st.integers(0, 11)) == 0
+        case = base_case(draw, 5 if small else maxlen, min_len=1 if nopair else 0, flavours=("free",) if nopair else ("free", "related"))
         n, m = len(case["s1"]), len(case["s2"])
         kind = draw(st.sampled_from(["any", "inside", "full", "single", "narrow", "inside"]))
+        if nopair:
+            kind = "full"
+            case["mat"] = [[draw(st.integers(-3, -1)) for _ in row] for row in case["mat"]]
+            pen = st.integers(-10, -4)
+            case["gap"] = [draw(pen), draw(pen)] if draw(st.booleans()) else draw(pen)
         lo_all, hi_all = -(n + 3), m + 3
         if kind == "inside" and n and m:
             lo_all, hi_all = -(n - 1), m - 1
@@ -283,7 +394,7 @@ def st_banded(tier):
         if draw(st.booleans()):
             d1, d2 = d2, d1
         case["band"] = [d1, d2]
-        case["local"] = draw(st.sampled_from([False, False, True]))
+        case["local"] = False if nopair else draw(st.sampled_from([False, False, True]))
         return case
 
     return gen().map(narrow_banded)
@@ -306,18 +417,19 @@ def st_seeded(tier, for_ungapped=False):
             case["seed"] = [k, k]
         else:
             case["seed"] = [draw(st.integers(0, n - 1)), draw(st.integers(0, m - 1))]
+        never = st.sampled_from(NEVER_STOP if for_ungapped else NEVER_STOP_GAPPED + NEAR_INT32_MAX)
         if case["flavour"] == "xdrop":
             case["threshold"] = draw(
-                st.one_of(st.integers(0, 3 if for_ungapped else 6), st.integers(0, 6), st.sampled_from([10**4, 10**6]), st.sampled_from(NEVER_STOP if for_ungapped else NEVER_STOP_GAPPED))
+                st.one_of(st.integers(0, 3 if for_ungapped else 6), st.integers(0, 6), st.sampled_from([10**4, 10**6]), never)
             )
         else:
             case["threshold"] = draw(
-                st.one_of(st.integers(0, 10), st.integers(0, 60), st.sampled_from([10**4, 10**6]), st.integers(0, 10**6), st.sampled_from(NEVER_STOP if for_ungapped else NEVER_STOP_GAPPED))
+                st.one_of(st.integers(0, 10), st.integers(0, 60), st.sampled_from([10**4, 10**6]), st.integers(0, 10**6), never)
             )
         case["direction"] = draw(st.sampled_from(["both", "both", "upstream", "downstream"]))
         return case
 
-    return gen()
+    return gen() if for_ungapped else gen().map(narrow_seeded)
 
 
 def st_ungapped(tier):
@@ -327,20 +439,25 @@ def st_ungapped(tier):
 def st_table_limit(tier):
     @st.composite
     def gen(draw):
-        L1 = draw(st.integers(130, 260))
-        L2 = draw(st.integers(130, 260))
+        L1 = draw(st.integers(600, 1200))
+        L2 = draw(st.integers(600, 1200))
         pattern = draw(st.lists(st.integers(0, 3), min_size=1, max_size=6))
-        k = draw(st.integers(0, 20))
+        # seed on the main diagonal: near the start (long downstream region), near the end (long upstream
+        # region) or anywhere
+        k = draw(st.one_of(st.integers(0, 20), st.integers(0, 10**6), st.integers(-21, -1)))
         return {
             "L1": L1,
             "L2": L2,
             "pattern": pattern,
-            "seed": [k, k],
-            "direction": draw(st.sampled_from(["both", "downstream"])),
+            "k": k,
+            "direction": draw(st.sampled_from(["both", "downstream", "upstream"])),
             "gap": draw(st.sampled_from([-5, -8, [-6, -2]])),
-            "threshold": draw(st.sampled_from([20, 100, 1000])),
+            "threshold": draw(st.sampled_from([20, 100, 1000, 10**5])),
             "limit": draw(
-                st.one_of(st.integers(1, 100), st.integers(100, 12000), st.integers(12000, 300000), st.just(10**7))
+                st.one_of(
+                    st.integers(1, 100), st.integers(100, 12000), st.integers(12000, 300000),
+                    st.integers(300000, 10**7), st.sampled_from([10**8, 10**9, 10**12]), st.sampled_from([10**9, 10**12]),
+                )
             ),
             "score_only": draw(st.booleans()),
         }
@@ -371,6 +488,25 @@ def same_result(res_a, res_b):
     return key(res_a) == key(res_b)
 
 
+def between(o, score, low, high, clause, what):
+    """'The heuristic reaches the optimum': with a linear penalty low == high; with an affine one ``low`` is the
+    optimum of the search space in which a gap may not abut a gap of the other sequence (C08) and ``high`` the
+    one without that restriction.  The caller has already established that ``score`` is the recomputed score of
+    every returned trace, so a value in between is an existing alignment of the larger space."""
+    assert low <= high, f"restricted optimum {low} > unrestricted optimum {high}"
+    if low == high:
+        o.check_eq(score, low, clause, what)
+        return
+    o.label("adjacency_matters")
+    o.check(low <= score <= high, clause, lambda: f"{what}: {score} outside [{low}, {high}] (optimum with / without the adjacency restriction)")
+    if score == low:
+        o.label("reached_restricted")
+    elif score == high:
+        o.label("reached_unrestricted")
+    elif low < score < high:
+        o.label("reached_between")
+
+
 def run_banded(case):
     import biotite.sequence.align as align
 
@@ -384,6 +520,8 @@ def run_banded(case):
     o.label("local" if local else "semiglobal")
     has_cell = R.band_has_cell(n, m, lower, upper)
     s1, s2, matrix = build(case)
+    if BUILD_STATE["reused"]:
+        o.label("matrix_address_reused")
 
     try:
         res = align.align_banded(
@@ -401,6 +539,12 @@ def run_banded(case):
     except ValueError as e:
         # a band without any cell (i, j) cannot hold an alignment
         o.label("band_rejected")
+        if has_cell and (go == 0 or ge == 0):
+            # the quantifier of the property includes penalty 0 (the docstring says "negative"): a refusal of 0
+            # is reported, but under its own clause
+            o.label("zero_penalty_refused")
+            o.fail("zero_penalty_accepted", f"ValueError({e}) for gap_penalty={gap} (band {case['band']} holds pairs)")
+            return o
         o.check(not has_cell, "band_with_cells_accepted", lambda: f"ValueError({e}) although the band {case['band']} holds pairs")
         return o
     if not has_cell:
@@ -408,22 +552,39 @@ def run_banded(case):
 
     full = lower <= -(n - 1) and upper >= m - 1 and n > 0 and m > 0
     mode = "local" if local else "semiglobal"
-    optimum, _ = R.dp3(c1, c2, mat, go, ge, mode, affine)
-    ref = None
+    # the "true optimum of the unrestricted problem": with an affine penalty the docstring of align_banded
+    # does not say whether a gap may abut a gap of the other sequence -> upper bound = the larger optimum
+    # (no adjacency restriction), lower bound of the "reaches" clauses = the smaller one (C08 model)
+    optimum, _ = R.dp3(c1, c2, mat, go, ge, mode, False)
+    optimum_r = optimum
+    if affine and full:
+        optimum_r, _ = R.dp3(c1, c2, mat, go, ge, mode, True)
+    ref = ref_u = None
     if n > 0 and m > 0 and has_cell:
-        ref = R.banded_ref(c1, c2, mat, go, ge, affine, lower, upper, local)
+        ref = ref_u = R.banded_ref(c1, c2, mat, go, ge, affine, lower, upper, local)
+        if affine:
+            ref_u = R.banded_ref(c1, c2, mat, go, ge, False, lower, upper, local)
         if n <= 5 and m <= 5:
             bb = R.banded_brute(c1, c2, mat, go, ge, affine, lower, upper, local)
             assert bb == ref["opt"], f"band reference DP {ref['opt']} != brute force {bb}"
+            if affine and n <= 4 and m <= 4:
+                bb = R.banded_brute(c1, c2, mat, go, ge, False, lower, upper, local)
+                assert bb == ref_u["opt"], f"band reference DP (no adjacency restriction) {ref_u['opt']} != brute force {bb}"
             o.label("band_ref_checked_against_bruteforce")
             if n <= 4 and m <= 4:
-                bf = R.brute_force(c1, c2, mat, go, ge, mode, affine)
+                bf = R.brute_force(c1, c2, mat, go, ge, mode, False)
                 assert bf["opt"] == optimum, f"dp3 {optimum} != brute force {bf['opt']}"
 
-    o.check(len(res) >= 1, "reports_a_score", "empty result list")
+    if has_cell:
+        o.check(len(res) >= 1, "reports_a_score", "empty result list")
+    elif len(res) == 0:
+        # no pair can be formed: "no alignment" is as good an answer as an alignment without a pair
+        o.label("band_without_cell_empty_result")
+        return o
     o.check(len(res) <= case["max_number"], "at_most_max_number", lambda: f"{len(res)} > {case['max_number']}")
     seen = set()
     scores = set()
+    honest = True
     for k, ali in enumerate(res):
         trace = trace_of(ali)
         score = iscore(o, ali.score, f"alignment {k}")
@@ -433,6 +594,7 @@ def run_banded(case):
         problems = R.validate_trace(trace, n, m, True)
         if problems:
             o.fail("trace_valid", f"alignment {k}: {problems[:3]} trace={trace}")
+            honest = False
             continue
         outside = [(i, j) for i, j in trace if i != -1 and j != -1 and not (lower <= j - i <= upper)]
         o.check(not outside, "pairs_inside_band", lambda: f"alignment {k}: pairs {outside} outside band {lower}..{upper}")
@@ -441,6 +603,7 @@ def run_banded(case):
         else:
             mine = R.score_trace(R.complete_trace(trace, n, m), c1, c2, mat, go, ge, False)
         o.check_eq(mine, score, "recomputed_score_equals_reported", f"alignment {k} trace={trace} band={case['band']}")
+        honest = honest and mine == score
         if trace:
             key = tuple(trace)
             o.check(key not in seen, "non_empty_results_distinct", lambda: f"alignment {k} repeated: {trace}")
@@ -452,21 +615,23 @@ def run_banded(case):
         return o
     score = max(scores)
     o.check(score <= optimum, "not_above_unrestricted_optimum", lambda: f"banded {score} > optimum {optimum} ({mode}, gap={gap})")
-    pair_opt = None
     if full:
         o.label("band_covers_all_diagonals")
         if local:
             reaches = True
         else:
+            # premise "some optimal alignment pairs at least one position", under the restricted reading:
+            # an aligner that pairs >= 1 position then returns >= optimum_r under either reading
             pair_opt = R.semiglobal_pair_opt(c1, c2, mat, go, ge, affine)
-            reaches = pair_opt == optimum
+            reaches = pair_opt == optimum_r
             if not reaches:
                 o.label("optimum_without_pair")
-        if reaches:
-            o.check_eq(score, optimum, "reaches_optimum_when_band_covers_table", f"{mode} gap={gap} band={case['band']}")
+        if reaches and honest:
+            between(o, score, optimum_r, optimum, "reaches_optimum_when_band_covers_table", f"{mode} gap={gap} band={case['band']}")
     if ref is not None and ref["opt"] is not None:
-        o.check_eq(score, ref["opt"], "equals_band_restricted_optimum", f"{mode} gap={gap} band={case['band']}")
-        binds = ref["opt"] < optimum
+        if honest:
+            between(o, score, ref["opt"], ref_u["opt"], "equals_band_restricted_optimum", f"{mode} gap={gap} band={case['band']}")
+        binds = ref_u["opt"] < optimum
         if binds:
             o.label("band_cuts_optimal_path")
         o.mark_nontrivial(binds and n >= 2 and m >= 2)
@@ -479,6 +644,8 @@ def run_banded(case):
         o.label("class_F3_sentinel_overflow")
     if any(-1 in col for tr in seen for col in tr):
         o.label("result_with_gap")
+    if len(seen) > 1:
+        o.label("several_alignments")
     if len(s2) < len(s1):
         o.label("swapped(len2<len1)")
     return o
@@ -521,10 +688,24 @@ def run_seeded(case):
     common_labels(o, case, c1, c2, mat, affine, go, ge)
     o.label(direction)
     s1, s2, matrix = build(case)
+    T = case["threshold"]
+    if T > 10**6:
+        o.label("never_stop_threshold")
+    if f4_class(case):
+        o.label("class_F4_threshold_leaves_no_room_in_int32")
 
-    res = align.align_local_gapped(
-        s1, s2, matrix, seed, case["threshold"], gap_penalty=gap, max_number=case["max_number"], direction=direction
-    )
+    try:
+        res = align.align_local_gapped(
+            s1, s2, matrix, seed, T, gap_penalty=gap, max_number=case["max_number"], direction=direction
+        )
+    except (OverflowError, ValueError) as e:
+        if T <= 10**6:
+            raise
+        # a threshold beyond anything a score can drop by may be refused (the tables hold threshold + score
+        # in int32): loud, not a wrong result.  Nothing else may be refused here: seed, penalties, direction
+        # and max_number are valid.
+        o.label(f"large_threshold_refused:{type(e).__name__}")
+        return o
     res_used = align.align_local_gapped(
         s1, s2, used_matrix(case, s1, s2), seed, case["threshold"], gap_penalty=gap, max_number=case["max_number"],
         direction=direction,
@@ -534,18 +715,26 @@ def run_seeded(case):
         s1, s2, matrix, seed, case["threshold"], gap_penalty=gap, max_number=case["max_number"], direction=direction,
         score_only=True,
     )
-    through = R.seed_ref(c1, c2, mat, go, ge, affine, seed, direction)
+    # best alignment through the seed with (C08 model) and without the restriction that a gap may not abut a
+    # gap of the other sequence; the docstring of align_local_gapped is silent about it (see ``between``)
+    through = through_u = R.seed_ref(c1, c2, mat, go, ge, affine, seed, direction)
+    if affine:
+        through_u = R.seed_ref(c1, c2, mat, go, ge, False, seed, direction)
     if n <= 5 and m <= 5:
         sb = R.seed_brute(c1, c2, mat, go, ge, affine, seed, direction)
         assert sb == through, f"seed reference {through} != brute force {sb}"
+        if affine and n <= 4 and m <= 4:
+            sb = R.seed_brute(c1, c2, mat, go, ge, False, seed, direction)
+            assert sb == through_u, f"seed reference (no adjacency restriction) {through_u} != brute force {sb}"
         o.label("seed_ref_checked_against_bruteforce")
-    optimum, _ = R.dp3(c1, c2, mat, go, ge, "local", affine)
-    assert through <= optimum
+    optimum, _ = R.dp3(c1, c2, mat, go, ge, "local", False)
+    assert through <= through_u <= optimum
 
-    o.check(isinstance(res, list) and len(res) >= 1, "reports_a_score", "no alignment returned")
+    o.check(len(res) >= 1, "reports_a_score", "no alignment returned")
     o.check(len(res) <= case["max_number"], "at_most_max_number", lambda: f"{len(res)} > {case['max_number']}")
     seen = set()
     scores = set()
+    honest = True
     for k, ali in enumerate(res):
         trace = trace_of(ali)
         rep = iscore(o, ali.score, f"alignment {k}")
@@ -553,9 +742,11 @@ def run_seeded(case):
             return o
         scores.add(rep)
         if not check_seed_trace(o, trace, seed, direction, n, m, k):
+            honest = False
             continue
         mine = R.score_trace(trace, c1, c2, mat, go, ge, True)
         o.check_eq(mine, rep, "recomputed_score_equals_reported", f"alignment {k} trace={trace}")
+        honest = honest and mine == rep
         key = tuple(trace)
         o.check(key not in seen, "non_empty_results_distinct", lambda: f"alignment {k} repeated: {trace}")
         seen.add(key)
@@ -564,21 +755,22 @@ def run_seeded(case):
         return o
     score = max(scores)
     o.check_eq(int(only), score, "score_only_equals_full_call", f"seed={seed} threshold={case['threshold']} {direction}")
-    o.check(score <= through, "not_above_best_through_seed", lambda: f"{score} > best alignment through the seed {through}")
+    o.check(score <= through_u, "not_above_best_through_seed", lambda: f"{score} > best alignment through the seed {through_u}")
     o.check(score <= optimum, "not_above_unrestricted_optimum", lambda: f"{score} > local optimum {optimum}")
     free = cannot_bind(case, c1, c2, mat, go, ge)
     if free:
         o.label("threshold_cannot_bind")
-        o.check_eq(score, through, "reaches_best_through_seed_when_threshold_cannot_bind", f"seed={seed} {direction} gap={gap}")
+        if honest:
+            between(o, score, through, through_u, "reaches_best_through_seed_when_threshold_cannot_bind", f"seed={seed} {direction} gap={gap} threshold={T}")
     if score < through:
         o.label("threshold_binds")
-    if through < optimum:
+    if through_u < optimum:
         o.label("seed_off_optimal_alignment")
     if any(-1 in col for tr in seen for col in tr):
         o.label("result_with_gap")
     if len(seen) > 1:
         o.label("several_alignments")
-    o.mark_nontrivial(n >= 2 and m >= 2 and (score < through or through < optimum))
+    o.mark_nontrivial(n >= 2 and m >= 2 and (score < through or through_u < optimum))
     return o
 
 
@@ -600,16 +792,22 @@ def run_ungapped(case):
     s1, s2, matrix = build(case)
     ali = align.align_local_ungapped(s1, s2, matrix, seed, T, direction=direction)
     only = align.align_local_ungapped(s1, s2, matrix, seed, T, direction=direction, score_only=True)
+    # the matrix fits the sequences: switching the compatibility check off may not change anything
+    unchecked = align.align_local_ungapped(s1, s2, matrix, seed, T, direction=direction, check_matrix=False)
 
-    want = mat[c1[seed[0]]][c2[seed[1]]]
-    up = down = 0
-    b1 = b2 = False
+    # exact X-drop value under the two readings of the docstring ("more than threshold below" in the summary,
+    # "this value below" in the parameter text); they differ only if a drop hits the threshold exactly
+    want = want_ge = mat[c1[seed[0]]][c2[seed[1]]]
+    boundary = False
     if direction in ("both", "upstream"):
-        up, b1 = R.xdrop_ungapped(c1[: seed[0]][::-1], c2[: seed[1]][::-1], mat, T)
+        gt, ge_, b = H.xdrop_ungapped_variants(c1[: seed[0]][::-1], c2[: seed[1]][::-1], mat, T)
+        assert gt == R.xdrop_ungapped(c1[: seed[0]][::-1], c2[: seed[1]][::-1], mat, T)[0]
+        want, want_ge, boundary = want + gt, want_ge + ge_, boundary or b
     if direction in ("both", "downstream"):
-        down, b2 = R.xdrop_ungapped(c1[seed[0] + 1 :], c2[seed[1] + 1 :], mat, T)
-    want += up + down
-    if b1 or b2:
+        gt, ge_, b = H.xdrop_ungapped_variants(c1[seed[0] + 1 :], c2[seed[1] + 1 :], mat, T)
+        assert gt == R.xdrop_ungapped(c1[seed[0] + 1 :], c2[seed[1] + 1 :], mat, T)[0]
+        want, want_ge, boundary = want + gt, want_ge + ge_, boundary or b
+    if boundary:
         o.label("drop_exactly_at_threshold")
 
     trace = trace_of(ali)
@@ -624,7 +822,22 @@ def run_ungapped(case):
         mine = R.score_trace(trace, c1, c2, mat, 0, 0, True)
         o.check_eq(mine, score, "recomputed_score_equals_reported", f"trace={trace}")
     o.check_eq(int(only), score, "score_only_equals_full_call", f"seed={seed} T={T} {direction}")
-    o.check_eq(score, want, "equals_xdrop_reference", f"seed={seed} T={T} {direction}")
+    o.check_eq(
+        (iscore(o, unchecked.score, "check_matrix=False"), trace_of(unchecked)), (score, trace),
+        "check_matrix_false_same_result", f"seed={seed} T={T} {direction}",
+    )
+    if want_ge == want:
+        o.check_eq(score, want, "equals_xdrop_reference", f"seed={seed} T={T} {direction}")
+    else:
+        o.label("stop_rules_differ")
+        o.check(
+            score in (want, want_ge), "equals_xdrop_reference",
+            lambda: f"seed={seed} T={T} {direction}: {score}, X-drop value is {want} (stop if drop > T) or {want_ge} (stop if drop >= T)",
+        )
+        if score == want:
+            o.label("stop_rule_more_than")
+        elif score == want_ge:
+            o.label("stop_rule_at_least")
     # upper bounds: unrestricted local optimum (any strictly negative penalty: an ungapped
     # alignment is a local alignment), and the best ungapped alignment through the seed
     optimum, _ = R.dp3(c1, c2, mat, go, ge, "local", affine)
@@ -651,7 +864,14 @@ def run_ungapped(case):
 # --------------------------------------------------------------------------
 # table limit
 # --------------------------------------------------------------------------
+GROWN = 512  # a region this long has outgrown any plausible initial table (today: 100 x 100)
+
+
 def run_table_limit(case):
+    """Both sequences are prefixes of one periodic string and the seed lies on the main diagonal: every pair
+    on that diagonal scores +5 (the highest matrix entry), so the running score never drops along it - no
+    X-drop threshold >= 0 can stop the extension - and the all-match diagonal is the best alignment through
+    the seed (5 x number of pairs; every other alignment has fewer pairs or pays for gaps)."""
     import biotite.sequence as seq
     import biotite.sequence.align as align
 
@@ -664,20 +884,48 @@ def run_table_limit(case):
         s.code = np.array((pat * (length // len(pat) + 1))[:length], dtype=np.int64)
         return s
 
-    s1, s2 = mk(case["L1"]), mk(case["L2"])
-    matrix = align.SubstitutionMatrix(alph, alph, np.where(np.eye(4, dtype=bool), 5, -4).astype(np.int32))
+    L1, L2 = case["L1"], case["L2"]
+    s1, s2 = mk(L1), mk(L2)
+    c1, c2 = [int(v) for v in s1.code], [int(v) for v in s2.code]
+    mat = [[5 if r == c else -4 for c in range(4)] for r in range(4)]
+    matrix = align.SubstitutionMatrix(alph, alph, np.array(mat, dtype=np.int32))
     gap = tuple(case["gap"]) if isinstance(case["gap"], list) else case["gap"]
-    seed = tuple(case["seed"])
-    kw = dict(gap_penalty=gap, direction=case["direction"], max_number=1)
+    go, ge = (gap if isinstance(gap, tuple) else (gap, gap))
+    k = case["k"] % min(L1, L2)
+    seed = (k, k)
+    direction = case["direction"]
+    o.label(direction, "affine" if isinstance(gap, tuple) else "linear", f"threshold={case['threshold']}")
+    kw = dict(gap_penalty=gap, direction=direction, max_number=1)
     free = align.align_local_gapped(s1, s2, matrix, seed, case["threshold"], **kw)[0]
     tr = trace_of(free)
-    idx1 = [a for a, _ in tr if a != -1 and a > seed[0]]
-    idx2 = [b for _, b in tr if b != -1 and b > seed[1]]
-    # cells the downstream table must at least hold
-    need = (len(idx1) + 1) * (len(idx2) + 1)
-    grew = max(len(idx1), len(idx2)) >= 100  # larger than the initial table in one dimension
-    generous = 4 * (case["L1"] + 2) * (case["L2"] + 2)
+    free_score = iscore(o, free.score, "unlimited call")
+    if free_score is None:
+        return o
+
+    # ---- the unlimited result itself (table growth included) against the model
+    n_up = k if direction in ("both", "upstream") else 0
+    n_down = min(L1, L2) - k - 1 if direction in ("both", "downstream") else 0
+    want = 5 * (n_up + 1 + n_down)
+    if check_seed_trace(o, tr, seed, direction, L1, L2, 0):
+        mine = R.score_trace(tr, c1, c2, mat, go, ge, True)
+        o.check_eq(mine, free_score, "recomputed_score_equals_reported", f"seed={seed} {direction} trace of {len(tr)} columns")
+    o.check(free_score <= want, "not_above_best_through_seed", lambda: f"{free_score} > {want} = 5 x pairs of the diagonal through {seed}")
+    o.check_eq(free_score, want, "reaches_best_through_seed_when_threshold_cannot_bind", f"seed={seed} {direction} gap={gap} threshold={case['threshold']} lengths={L1},{L2}")
+
+    # ---- the limit.  Documented: MemoryError "if the number of cells in the internal dynamic programming
+    # table, i.e. approximately the product of the lengths of the aligned regions, would exceed the given
+    # value".  Demanded only with a wide margin in both directions; in between both outcomes are accepted.
+    regions = []
+    for side, keep in (("upstream", lambda v: v < k), ("downstream", lambda v: v > k)):
+        r1 = sum(1 for a, _ in tr if a != -1 and keep(a))
+        r2 = sum(1 for _, b in tr if b != -1 and keep(b))
+        regions.append((side, r1, r2))
+    grown = [(side, r1, r2) for side, r1, r2 in regions if max(r1, r2) >= GROWN]
+    if max(n_up, n_down) >= GROWN:
+        o.label("region>=512")
     limit = case["limit"]
+    must_raise = any(limit < ((r1 + 1) * (r2 + 1)) // 4 for _, r1, r2 in grown)
+    must_fit = limit >= 64 * (L1 + 2) * (L2 + 2)
 
     def limited():
         r = align.align_local_gapped(
@@ -685,25 +933,24 @@ def run_table_limit(case):
         )
         return int(r) if case["score_only"] else (r[0].score, trace_of(r[0]))
 
-    free_score = iscore(o, free.score, "unlimited call")
-    if free_score is None:
-        return o
     expect = free_score if case["score_only"] else (free_score, tr)
-    if grew and limit < need:
+    o.label("score_only" if case["score_only"] else "full_call")
+    if must_raise:
         o.label("must_raise")
-        o.expect_raises(MemoryError, limited, "memory_error_when_table_exceeds_limit", f"limit={limit} need>={need}")
+        o.expect_raises(MemoryError, limited, "memory_error_when_table_exceeds_limit", f"limit={limit} regions={regions}")
         o.mark_nontrivial()
-    elif limit >= generous:
-        o.label("must_fit")
-        o.check_eq(limited(), expect, "same_result_when_table_fits", f"limit={limit}")
     else:
-        o.label("either")
+        o.label("must_fit" if must_fit else "either")
         try:
             got = limited()
-        except MemoryError:
-            o.label("either:raised")
+        except MemoryError as e:
+            if must_fit:
+                o.fail("same_result_when_table_fits", f"MemoryError({e}) with limit={limit} for sequences of {L1} and {L2} symbols")
+            else:
+                o.label("either:raised")
         else:
-            o.label("either:returned")
+            if not must_fit:
+                o.label("either:returned")
             o.check_eq(got, expect, "same_result_when_table_fits", f"limit={limit}")
     # the failed call must leave the function usable
     again = align.align_local_gapped(s1, s2, matrix, seed, case["threshold"], **kw)[0]
@@ -719,7 +966,7 @@ SUBS = [
         quick=4000,
         thorough=150000,
         rule="band excludes every optimal alignment of the unrestricted problem (band-restricted optimum < optimum), both sequences >= 2",
-        clauses="valid traces; pairs inside band; recomputed (completed) score == reported; <= optimum; == optimum when band covers the table; == band-restricted optimum; distinct; <= max_number",
+        clauses="valid traces; pairs inside band; recomputed (completed) score == reported; <= optimum (affine: the one without adjacency restriction); == optimum when band covers the table and an optimal alignment pairs a position; == band-restricted optimum (affine: anywhere between the optima with / without adjacency restriction); <= max_number; stronger than the statement: non-empty results distinct, result independent of the history of the matrix object; ValueError only for bands without a pair (a refusal of penalty 0 has its own clause zero_penalty_accepted)",
     ),
     Sub(
         "seeded",
@@ -728,7 +975,7 @@ SUBS = [
         quick=3200,
         thorough=120000,
         rule="threshold binds (result < best alignment through the seed) or the seed is off every optimal local alignment, both sequences >= 2",
-        clauses="contains seed; direction; recomputed == reported == score_only; <= best through seed <= local optimum; == best through seed when the threshold cannot bind",
+        clauses="contains seed; direction; recomputed == reported == score_only; <= best through seed <= local optimum; == best through seed when the threshold cannot bind (affine: between the optima with / without adjacency restriction); distinct (stronger than the statement). NOT decided: how far a BINDING gapped X-drop reaches (label threshold_binds: only bounds and honesty - the statement fixes no exact semantics, X-drop is not monotone in the threshold)",
     ),
     Sub(
         "ungapped",
@@ -737,7 +984,7 @@ SUBS = [
         quick=2400,
         thorough=120000,
         rule="threshold binds or the seed diagonal segment is not the optimal local alignment, both sequences >= 2",
-        clauses="diagonal range through the seed; direction; recomputed == reported == score_only == exact X-drop reference; <= optimum",
+        clauses="diagonal range through the seed; direction; recomputed == reported == score_only == check_matrix=False == exact X-drop reference (either stop rule of the docstring where they differ); <= optimum",
     ),
     Sub(
         "table_limit",
@@ -745,8 +992,8 @@ SUBS = [
         run_table_limit,
         quick=320,
         thorough=6000,
-        rule="aligned region longer than the initial table and max_table_size below the cells it needs",
-        clauses="max_table_size: MemoryError raised cleanly when exceeded, unchanged result when not",
+        rule="an aligned region of >= 512 symbols and max_table_size below a quarter of the product of its lengths",
+        clauses="result after table growth: valid, contains seed, direction, recomputed == reported == 5 x pairs of the all-match diagonal; max_table_size: MemoryError raised cleanly when far exceeded, unchanged result when it fits with a wide margin (64 x product of the sequence lengths), either in between",
     ),
 ]
 
@@ -781,8 +1028,18 @@ def _f3(sub, case, clause, message):
     return sub == "banded" and overflow_class(case)
 
 
+F4_CLAUSES = {"reaches_best_through_seed_when_threshold_cannot_bind"}
+
+
+def _f4(sub, case, clause, message):
+    # the wrapped-around cells are pruned: the result stays valid and honest, but falls short of the best
+    # alignment through the seed although the threshold cannot bind
+    return sub == "seeded" and clause in F4_CLAUSES and f4_class(case)
+
+
 FINDINGS = {
     "banded_core_starts_with_gap": _f1,
     "banded_affine_gap_abuts_terminal_gap": _f2,
     "banded_affine_sentinel_overflow": _f3,
+    "gapped_threshold_leaves_no_room_in_int32": _f4,
 }
